@@ -11,11 +11,18 @@ RULE = ("correspondence: the validity/running/buff/keydown views of the model ar
 
 
 def known_match(entry, f):
+    if entry.get("id") == "C10-validity-ignores-pending-callbacks":
+        # identified by its call site: the viewer looks at the store BEFORE play() relays the pending `emitted` callbacks of the previous
+        # action; a hit belongs to it iff callbacks were pending and relaying them first (ELAPSE 0) removes the discrepancy
+        return f.get("component") == "engine" and f.get("mechanism") == "pending-callbacks"
     # the recorded finding: a key-down skill advertised as usable while its key-down is running
     return "usable but use is rejected" in f["what"] and f.get("keydown_running") is True
 
 
 def witness_replay(entry):
+    if entry.get("id") == "C10-validity-ignores-pending-callbacks":
+        from lib import h_validuse
+        return h_validuse.witness_replay(entry)
     from simaple.core.base import ActionStat
     from simaple.simulate.component.common.keydown_skill import KeydownSkillComponent, KeydownSkillState
     from simaple.simulate.component.entity import Cooldown, Keydown
@@ -32,8 +39,12 @@ def witness_replay(entry):
 
 def dispatch_hook(ctx):
     """store-access part of the views: Props/C10_dispatch.v over Model/DispatchViews.v + the H-dispatch tie and search"""
-    from lib import h_dispatch
-    return h_dispatch.hook(ctx, "C10")
+    from lib import h_dispatch, h_validuse
+    out = h_dispatch.hook(ctx, "C10")
+    # the property's own observation point: engine.get_current_viewer() right before a USE, and the events of that USE
+    found, stats = h_validuse.search(ctx, 150 if ctx.thorough else 25)
+    ctx.cov["engine_level_valid_then_use"] = stats
+    return out + found
 
 
 def run(ctx: Ctx) -> int:
